@@ -199,3 +199,16 @@ class gnu_get_symbol:
         variant="len($B) + 4 - ($cp + (symidx - $so) * 4)")}
     ensures = ["result is None or result.name == name"]
     may_raise = ["error", "ELFParseError", "OverflowError", "UnicodeDecodeError"]
+
+
+@contract("elftools/elf/sections.py", "SUNWSyminfoTableSection.iter_symbols", props=["C03"])
+class syminfo_iter:
+    """entries 1 .. num_symbols in index order (entry 0 is the table header): all of them"""
+    params = dict(self=SyminfoT)
+    requires = ["self.structs.elfclass == self.elffile.elfclass", "self.header.sh_entsize > 0",
+                "self.symboltable.structs.elfclass == self.symboltable.elffile.elfclass"]
+    yield_shape = Obj('Symbol', entry=Rec(si_boundto=CodeT(16), si_flags=U16), name=Str)
+    loops = {0: dict(invariant=["$k == $n"])}
+    each_yield = ["value.entry == P('Elf_Sunw_Syminfo', self.stream.B, self.header.sh_offset + ($n + 1) * self.header.sh_entsize)"]
+    ensures = ["$n == max(0, self.header.sh_size // self.header.sh_entsize - 1)"]
+    may_raise = ["ELFParseError", "OverflowError"]
